@@ -42,6 +42,17 @@ func write(dir, name string, key *rsa.PrivateKey, tmpl *x509.Certificate) {
 
 func main() {
 	dir := os.Args[1]
+	if len(os.Args) > 2 && os.Args[2] == "rsaold2" {
+		// a second key whose certificate lapsed in 1999, like rsaold's (an IdP all of whose listed certificates are outside their validity period)
+		k, err := rsa.GenerateKey(rand.Reader, 2048)
+		if err != nil {
+			panic(err)
+		}
+		write(dir, "rsaold2", k, &x509.Certificate{SerialNumber: big.NewInt(107), Subject: pkix.Name{CommonName: "rsaold2"},
+			NotBefore: time.Date(1990, 1, 1, 0, 0, 0, 0, time.UTC), NotAfter: time.Date(1999, 6, 1, 0, 0, 0, 0, time.UTC),
+			KeyUsage: x509.KeyUsageDigitalSignature | x509.KeyUsageKeyEncipherment, BasicConstraintsValid: true})
+		return
+	}
 	if len(os.Args) > 2 && os.Args[2] == "rsa1-variants" {
 		b, err := os.ReadFile(filepath.Join(dir, "rsa1.pem"))
 		if err != nil {
